@@ -1,4 +1,5 @@
 import PymocaVerif.Lemmas.Classify
+import PymocaVerif.Generated.ClassifyTable
 /-!
 # C10 — the generated CasADi model classifies every variable exactly once
 
@@ -325,5 +326,55 @@ theorem input_output_only_at_top_level (nd : Nat) (syms : List Sym) (l : Lists) 
 example : ∃ l, exitClass 0 [flatSym "c." .derived ⟨"u", ["input"], "Real", 0, []⟩,
       flatSym "" .elementary ⟨"t", ["input"], "Real", 1, []⟩] = some l :=
   exitClass_isSome _ _ (by decide)
+
+/-! ## Tie to the sources: the category table observed on the code under test
+
+`Generated/ClassifyTable.lean` is rewritten at the start of every C10 run from the behaviour of the real
+`Generator.exitClass` on one probe class (one variable per subset of the four category-deciding prefixes,
+in both spellings).  `source_table_agrees` is the proof obligation over it; `catOf_keys` lifts the finite
+table to every prefix list, so `current_code_category` speaks about arbitrary prefix lists. -/
+
+/-- The prefixes the `if/elif` chain looks at. -/
+def catKeys : List String := ["constant", "parameter", "input", "state"]
+
+/-- The probe prefix lists, indexed by bit mask over `catKeys`, then the reversed spellings. -/
+def probeLists : List (List String) :=
+  let fw := (List.range 16).map (fun m => (List.range 4).filterMap (fun j =>
+    if m / 2 ^ j % 2 = 1 then catKeys[j]? else none))
+  fw ++ fw.map List.reverse
+
+/-- The key prefixes a prefix list carries, in `catKeys` order (what the category may depend on). -/
+def keySet (p : List String) : List String := catKeys.filter (· ∈ p)
+
+/-- **catOf_keys.** The category depends only on which of the four key prefixes occur — not on order,
+    multiplicity or any other prefix. -/
+theorem catOf_keys (p : List String) : catOf p = catOf (keySet p) := by
+  unfold catOf keySet catKeys
+  by_cases h1 : "constant" ∈ p <;> by_cases h2 : "parameter" ∈ p <;> by_cases h3 : "input" ∈ p <;>
+    by_cases h4 : "state" ∈ p <;> simp [List.filter, h1, h2, h3, h4]
+
+/-- Every key set is one of the (forward) probe lists. -/
+theorem keySet_mem_probeLists (p : List String) : keySet p ∈ probeLists := by
+  unfold keySet catKeys
+  by_cases h1 : "constant" ∈ p <;> by_cases h2 : "parameter" ∈ p <;> by_cases h3 : "input" ∈ p <;>
+    by_cases h4 : "state" ∈ p <;> simp [List.filter, h1, h2, h3, h4] <;> decide
+
+/-- The probes the translator ran are exactly the probe lists of the model (nothing skipped or added). -/
+theorem source_table_probes : Generated.ClassifyTable.observed.map (·.1) = probeLists := by decide
+
+/-- **source_table_agrees** (proof obligation over the generated file). On every probe the code under test
+    placed the variable in exactly the list `catOf` names. -/
+theorem source_table_agrees : ∀ e ∈ Generated.ClassifyTable.observed, e.2 = some (catOf e.1) := by decide
+
+/-- **current_code_category.** For every prefix list `p` whatsoever, the table observed on the code under
+    test has an entry for the key set of `p`, and the category observed there is `catOf p`. -/
+theorem current_code_category (p : List String) :
+    ∃ e ∈ Generated.ClassifyTable.observed, e.1 = keySet p ∧ e.2 = some (catOf p) := by
+  have hm : keySet p ∈ Generated.ClassifyTable.observed.map (·.1) := by
+    rw [source_table_probes]; exact keySet_mem_probeLists p
+  obtain ⟨e, he, h1⟩ := List.mem_map.mp hm
+  exact ⟨e, he, h1, by rw [source_table_agrees e he, h1, ← catOf_keys]⟩
+
+example : catOf ["output", "state", "discrete", "parameter"] = .param := by decide
 
 end PymocaVerif.Classify
